@@ -346,10 +346,13 @@ def main(prop, run, level="proof", lean_module=None, search=None, argv=None):
         ctx.audit()
         common.load_impl()
         if args.replay:
-            ctx.extra["replay_of"] = args.replay
-            ctx.replay = json.load(open(args.replay))
-        else:
-            ctx.replay = None
+            import replay as _replay
+            still = _replay.run(ctx, json.load(open(args.replay)))
+            if still is None:
+                print("replay is not a single input; running the check")
+            else:
+                print("REPRODUCED" if still else "NOT REPRODUCED on the current tree")
+                return 1 if still else 0
         run(ctx)
         if ctx.tier == "thorough" and ctx.build_ok:
             ctx.leanchecker()
